@@ -265,6 +265,9 @@ def sorting_alphabet(N):
         for rev in (0, 1):
             A.append(act("ChSort", n=n, key=key, rev=rev))
             A.append(act("ChSort", n=n, key=key, rev=rev, via=1))
+    for key in (0, 2, 3):
+        A.append(act("ChRemoveAll", n=n, key=key))
+        A.append(act("ChRemoveAll", n=n, key=key, via=1))
     return A
 
 
